@@ -190,6 +190,17 @@ def handle (st : DState) (l : Line) : Option (DState × Except String String) :=
         ret { st with red := fin.s }
           (.ok (s!"mid={dumpRedis mid.s} log=[{lg}]\t" ++ (if inflight > 0 then s!"inflight{inflight}" else "quiescent-mid")))
       | _, _ => ret st (.error "bad args")
+  | "st.redis_gc_double" =>
+    -- two expiry passes of two instances overlapping on an emptied swarm: in any sequential order the first
+    -- unregisters it and decrements the infohash count, the second finds nothing to do
+    match l.bytes "ih", l.bytes "pk" with
+    | .ok ih, .ok pk =>
+      let p := peerOfKey pk
+      let st1 := putSeeder st ih p
+      let st2 := (deleteSeeder st1 ih p).1
+      let st3 := gc (gc st2 st.clock) st.clock
+      ret st3 (.ok (s!"second_pass_inside_first=1 infohashes={(totals st3).1}\tgcdouble"))
+    | _, _ => ret st (.error "bad args")
   | "st.dump" => ret st (.ok ((if st.redis then dumpRedis st.red else dump st.mem) ++ "\tdump"))
   | "st.totals" =>
     let (a, b, c) := totals st
